@@ -1,5 +1,5 @@
 """C27 eval-up-to reports the value the expression takes when run."""
-REG_DRAFT = dict(
+REG = dict(
     engine='E1-enum',
     technique='bounded-exhaustive enumeration of programs made of top-level expressions, top-level blocks and tests x caret offsets; the real eval-up-to is compared with the first value recorded for the same span by a source-instrumented run of the same program on the real interpreter',
     text='Programs: expression E (17 shapes quick / 25 thorough) in a statement context (let right-hand side, call argument, statement, last expression, if condition, loop header, closure body, local lets) placed in top-level expressions, a top-level block or a test, directly or inside an if / else / for (two iterations with different values) / match arm / closure / while (two iterations) body. Offsets: for every value expression of the context statements its first offset and its first own offset (not covered by a child expression) in quick; every byte offset of the context statements in thorough. The innermost expression at an offset is the smallest expression span containing it (generator bookkeeping, cross-checked against the parser\'s own position list); the reference value is the first `PROBE:` line printed when that span is wrapped in a printing identity function. Oracle: the reported value equals the reference; the reported position is that span; an error / no value only if the normal run fails first or never evaluates the span.',
